@@ -9,7 +9,7 @@ import Driver.Static
 import Driver.Cli
 import Driver.SmBuilder
 import Driver.Cache
--- TEMP-DISABLED import Driver.Comp
+import Driver.Comp
 open Lean Drv
 
 /-- dispatch on the prefix of "op" -/
@@ -27,7 +27,7 @@ def dispatch (j : Json) : R Json := do
   | "cli" => CliD.handle op j
   | "smb" => SmbD.handle op j
   | "cache" => CacheD.handle op j
-  -- TEMP-DISABLED  | "comp" => CompD.handle op j
+  | "comp" => CompD.handle op j
   | _ => throw s!"unknown op {op}"
 
 partial def loop (h : IO.FS.Stream) (out : IO.FS.Stream) : IO Unit := do
